@@ -24,6 +24,7 @@ SPEC = {
              "bytes). All arguments are exact-size unterminated heap views scribbled or freed after the call. A case is "
              "non-trivial if it executed at least one Set/Delete or parsed one header; distinct = distinct hash of the "
              "operation/argument sequence or of the header bytes."),
+    "rule_extra": ' Round 2: every 4th case adds a near-maximal list (28-32 members, keys and values of 254-256 characters, header up to 16447 bytes) that must parse and round-trip.',
     "assumptions": ASSUME_COMMON + [
         "key/value validity is three-valued: strings on which W3C level 1, level 2 and the two compiled validators disagree (leading digit, value ending in a blank, tenant part > 241) follow the implementation's verdict and are counted as don't-care",
         "duplicate keys arriving in a header are outside the statement and not judged"],
